@@ -250,7 +250,9 @@ func (c *checker) classifyNoLeader(up []sim.Ev) (string, string) {
 	if !anyCampaigner {
 		return "no-leader-nobody-may-campaign", "no running server is a voter in its own latest configuration"
 	}
-	if reasons["not-in-configuration"] > 0 {
+	if reasons["not-in-configuration"] > 0 || reasons["candidate-nonvoter-in-voters-config"] > 0 {
+		// S9: a voter whose own (stale) configuration does not list the candidate as a voter refuses it,
+		// and only a leader could bring that voter's configuration up to date
 		return "no-leader-stale-config-voter", fmt.Sprintf("nobody can win: %v", reasons)
 	}
 	if reasons["log-behind-refusal-by-non-campaigner"] > 0 {
